@@ -38,6 +38,11 @@ type c20Scn struct {
 	// Orch: packets are delivered by the orchestrator at quiescent points (as everywhere else);
 	// otherwise by timer goroutines of their own, in parallel with the API callers
 	Orch bool `json:"orch,omitempty"`
+	// MultiRead > 0: that many extra goroutines block in ReadSCTP on ONE stream (beside its
+	// regular reader); MultiAtUs after the start of phase 1 the peer closes that stream: every
+	// one of them has to return
+	MultiRead int `json:"multiread,omitempty"`
+	MultiAtUs int `json:"multiat,omitempty"`
 }
 
 var c20Kinds = []string{"write", "write", "write", "write", "buffered", "abuffered", "getters", "setrel", "thresh", "onlow", "hb", "open", "rdl", "wdl", "maxmsg", "closestream", "state"}
@@ -81,6 +86,10 @@ func genC20(rt *rapid.T) c20Scn {
 		x.Pos[1] = genPosFaults(rt, "fb", k, 4, in)
 	}
 	x.Orch = rapid.IntRange(0, 3).Draw(rt, "orch") == 0
+	if rapid.IntRange(0, 2).Draw(rt, "multiread") == 0 {
+		x.MultiRead = rapid.IntRange(2, 4).Draw(rt, "nmultiread")
+		x.MultiAtUs = rapid.SampledFrom([]int{0, 100, 10137, 30000}).Draw(rt, "multiat")
+	}
 	ne := rapid.IntRange(1, 4).Draw(rt, "nend")
 	for i := 0; i < ne; i++ {
 		x.End = append(x.End, c20Op{DelayUs: rapid.SampledFrom([]int{0, 0, 100, 5000, 30000}).Draw(rt, "ed"), K: rapid.SampledFrom([]string{"shutdown", "close", "abort", "close"}).Draw(rt, "ek"), V: rapid.IntRange(0, 1).Draw(rt, "eside")})
@@ -224,6 +233,32 @@ func runC20(t *testing.T, x c20Scn, verbose bool) vfCase {
 					}
 				}
 			}
+			// several readers blocked on one stream that the peer is about to reset
+			var multi []*vfCall
+			if x.MultiRead > 0 {
+				s.doWrite(0, 200, 10, 53)
+				s.o.settle(60 * time.Millisecond)
+				s.mu.Lock()
+				var hb *vfStreamH
+				if l := s.bySID[1][200]; len(l) > 0 {
+					hb = l[len(l)-1]
+				}
+				s.mu.Unlock()
+				ha, err := s.stream(0, 200, PayloadTypeWebRTCBinary)
+				if hb != nil && err == nil {
+					for i := 0; i < x.MultiRead; i++ {
+						multi = append(multi, s.spawn("read", 1, func() error {
+							buf := make([]byte, 256)
+							for {
+								if _, _, err := hb.s.ReadSCTP(buf); err != nil {
+									return nil
+								}
+							}
+						}))
+					}
+					s.o.after(time.Duration(x.MultiAtUs)*time.Microsecond, func() { _ = ha.s.Close() })
+				}
+			}
 			// ---- phase 1: concurrent use, no teardown ----
 			var wg sync.WaitGroup
 			done := false
@@ -239,6 +274,30 @@ func runC20(t *testing.T, x c20Scn, verbose bool) vfCase {
 			if !d {
 				fail("api-call-stuck", "phase 1: API goroutines did not finish within 60 virtual seconds of the last fault")
 				return
+			}
+			if len(multi) > 0 {
+				allBack := func() bool {
+					s.mu.Lock()
+					defer s.mu.Unlock()
+					for _, cl := range multi {
+						if !cl.Done {
+							return false
+						}
+					}
+					return true
+				}
+				if !s.waitHealed(allBack, 60*time.Second) {
+					n := 0
+					s.mu.Lock()
+					for _, cl := range multi {
+						if cl.Done {
+							n++
+						}
+					}
+					s.mu.Unlock()
+					fail("read-not-unblocked", "the peer reset a stream on which %d goroutines were blocked in ReadSCTP: only %d of them returned within 60 s", len(multi), n)
+					return
+				}
 			}
 			// everything written on the main streams must be delivered: exactly once, per-writer order
 			allRead := func() bool {
